@@ -309,18 +309,16 @@ impl Envelope {
             let result: Option<Result<Option<Envelope>>> = (|| {
             let signature_object_subject = signature_object.subject();
             if signature_object_subject.is_wrapped() {
-                if
-                    let Ok(outer_signature_object) = signature_object.object_for_predicate(
-                        known_values::SIGNED
-                    )
-                {
-                    if let Ok(outer_signature) = outer_signature_object.extract_subject::<Signature>() {
-                        if !signature_object_subject.is_signature_from_key(&outer_signature, key) {
-                            return None;
-                        }
-                    } else {
-                        return Some(Err(anyhow::anyhow!("Unexpected outer signature object type.")));
-                    }
+                // The wrapped signature-with-metadata must itself be signed
+                // by the same key; without such an outer signature the
+                // metadata is not covered by anything and does not match.
+                let has_outer_signature_from_key = signature_object
+                    .objects_for_predicate(known_values::SIGNED)
+                    .iter()
+                    .filter_map(|outer_signature_object| outer_signature_object.extract_subject::<Signature>().ok())
+                    .any(|outer_signature| signature_object_subject.is_signature_from_key(&outer_signature, key));
+                if !has_outer_signature_from_key {
+                    return None;
                 }
 
                 let signature_metadata_envelope = signature_object_subject.unwrap_envelope().unwrap();
